@@ -713,7 +713,7 @@ def family(tier):
             for ia, ka in enumerate(ALIAS_STARTS):
                 for ip, partner in enumerate(ALIAS_PARTNERS):
                     for swap in (0, 1):
-                        quick = dims in ALIAS_SHAPES[:3] and ip == (ia + len(dims)) % 4 and swap == (ia + neg) % 2
+                        quick = ip == (ia + len(dims) + dims[0]) % 4 and swap == (ia + neg) % 2
                         if thorough or quick:
                             mid = f"alias:{'x'.join(map(str, dims))}:{'neg' if neg else 'pos'}:{ka}:{partner}:{'swap' if swap else 'fwd'}"
                             items.append((mid, gen_alias(dims, neg, ka, partner, swap), "alias"))
@@ -1196,7 +1196,7 @@ def main():
         f"{'1..3' if thorough else '1..2'} outputs with shapes [11], [10], [2,10], [10,1], [11,2]{' with and without interleaved arrays' if thorough else ''}; delays with "
         f"n = {'9, 10, 11, 12, 23' if thorough else '10, 12'}: delayed n-vector / vector expression, 2 x n and n x 2 matrices, n delays from a for-loop, a big vector delay between scalar "
         f"and matrix delays, n separate delay() calls, x {'all' if thorough else '2'} duration kinds. "
-        f"(G) detect_aliases given to both compiles (variant `alias`): whole-array alias equations a = b / a = -b / b = a over shapes {', '.join(_dd(d) for d in (ALIAS_SHAPES if thorough else ALIAS_SHAPES[:3]))}, "
+        f"(G) detect_aliases given to both compiles (variant `alias`): whole-array alias equations a = b / a = -b / b = a over shapes {', '.join(_dd(d) for d in ALIAS_SHAPES)}, "
         f"start of either partner never set | list literal | DM expression | each | array parameter | parameter expression (every pair the unexpanded alias merging accepts), "
         f"partner algebraic | differentiated state | input | inside a component{'' if thorough else ' (one partner kind and one orientation per shape x sign x start kind, rotating)'}, bounds, nominal and fixed on both partners; "
         "alias sets compared element by element. On every member of every class: the `never set` marker of start is on exactly the elements of the arrays that have it; "
